@@ -279,9 +279,10 @@ def run(ctx, eng):
                node=f5.node)
     lookup_rule(ctx, eng)
     check_receive_frame(eng, ctx)
-    cm.include(ctx, eng, 'C20', {'FSM.reset-record'},
+    cm.include(ctx, eng, 'C20', {'FSM.reset-record', 'PAIR.closed-record'},
                'HEADERS for a stream that was reset are a stream error only '
-               'because every local reset is recorded as one')
+               'because every local reset is recorded as one, and stays '
+               'recorded under its own id when the stream is forgotten')
     cm.include(ctx, eng, 'C22',
                lambda o: o.rule in ('ORD.gates', 'ORD.gate') and
                o.where.endswith('_receive_push_promise_frame'),
